@@ -2,7 +2,7 @@
 """Regenerates /verif/MANIFEST.json from the table below (kept in one place so it is always valid)."""
 import json, subprocess
 
-HOOK_COMMITS = ["3a82b44"]
+HOOK_COMMITS = ["3a82b44", "7d5f6fc"]
 
 # id -> (category, technique, text, note, design_ref)
 MC = "model_checking"
